@@ -137,6 +137,14 @@ func (c *XAConn) BeginTx(ctx context.Context, opts driver.TxOptions) (driver.Tx,
 
 	c.autoCommit = false
 
+	// a dedicated connection may still be kept for an earlier, prepared branch. Where the server detaches a
+	// prepared branch from its session, that branch does not need this connection any more (phase two opens
+	// one of its own); keeping it would tie two branches to one connection that the first phase two closes
+	if c.holdState.isKept() && !c.xaActive && !c.res.IsShouldBeHeld() && c.xaBranchXid != nil {
+		c.res.Release(c.xaBranchXid.String())
+		c.holdState.setKept(false)
+	}
+
 	c.txCtx = types.NewTxCtx()
 	c.txCtx.DBType = c.res.dbType
 	c.txCtx.TxOpt = opts
